@@ -299,7 +299,7 @@ func c12Scenario(r *vf.Run, t *testing.T, id string, rng *rand.Rand) {
 			}
 			replay["mutation"] = op
 		case "adversary":
-			kind := rng.Intn(18)
+			kind := rng.Intn(19)
 			if silence {
 				kind = 99
 			}
@@ -360,6 +360,26 @@ func c12Scenario(r *vf.Run, t *testing.T, id string, rng *rand.Rand) {
 				e.P.Write(wire.Frame(nil, wire.TContinuation, wire.FEndHeaders, anyStream, []byte{0x88}, -1))
 			case 12:
 				e.P.Write(wire.Frame(nil, wire.THeaders, wire.FEndHeaders|wire.FEndStream, anyStream, []byte{0xff, 0xff, 0xff, 0xff, 0xff, 0xff, 0xff, 0xff, 0xff, 0xff, 0xff, 0x01}, -1))
+			case 18:
+				// a response that is cut short by RST_STREAM(NO_ERROR): headers (content-length 10), five octets of DATA, then the
+				// reset. RFC 7540 8.1 lets a server reset with NO_ERROR *after* a complete response; this one is not complete,
+				// and half a response is not a response
+				var out []byte
+				for _, sid := range streamOf {
+					blk := e.P.EncodeBlock([]F{{Name: ":status", Value: "200"}, {Name: "content-length", Value: "10"}}, nil)
+					out = append(out, rt.Concat(rt.HeaderFrames(sid, blk, nil, -1, nil, false))...)
+					out = append(out, wire.Frame(nil, wire.TData, 0, sid, []byte("hello"), -1)...)
+					out = append(out, rt.RstStream(sid, 0)...)
+				}
+				e.P.Write(out)
+				rt.Wait()
+				for i, c := range calls {
+					if i < len(reqs) && streamOf[reqs[i].Tag] != 0 {
+						if done, err, _ := c.Outcome(); done && err == nil {
+							fail("success-without-complete-response", fmt.Sprintf("family adversary/a18: request %s (stream %d) was reported successful although the server reset the stream (NO_ERROR) after half of the response: headers, 5 of the 10 octets they declare, no END_STREAM", reqs[i].Tag, streamOf[reqs[i].Tag]))
+						}
+					}
+				}
 			case 16, 17:
 				// a response whose header block is not valid HPACK although every field in it decodes: a dynamic table size update
 				// after a field (16) or as the last thing in the block (17), RFC 7541 4.2. It is no response at all.
@@ -516,8 +536,9 @@ func c12Scenario(r *vf.Run, t *testing.T, id string, rng *rand.Rand) {
 			if sawNil && sawErr {
 				fail("contradicting-outcomes", fmt.Sprintf("family %s/%s: request %s was resolved with both a nil and an error: %v", family, class, q.Tag, outs))
 			}
-			if len(outs) > 1 {
-				r.Inc("requests_resolved_more_than_once_same_kind", 1)
+			if len(outs) > 1 && !(sawNil && sawErr) {
+				// "exactly once": a caller that goes on listening on Ctx.Err hears one outcome, not the same one again
+				fail("resolved-more-than-once", fmt.Sprintf("family %s/%s: request %s (stream %d) was resolved %d times: %v", family, class, q.Tag, streamOf[q.Tag], len(outs), outs))
 			}
 			if err == nil && family != "mutate" && !(family == "adversary") {
 				if d := q.checkDelivered(c); d != "" {
